@@ -107,6 +107,7 @@ func (l *VerifLimiter) Add(name string, size int64, nowUnix int64) {
 // Access is what setAccessTime + case opAccessTime do, with the clock reading given.
 func (l *VerifLimiter) Access(name string, size int64, nowUnix int64) {
 	l.s.withAccessTime[itemName(name)] = accessedItem{accessTime(nowUnix), uint32(size / 1024)}
+	delete(l.s.withoutAccessTime, itemName(name))
 	l.s.storableAccessedItems[itemName(name)] = storableAccessedItem{nowUnix, uint32(size / 1024)}
 }
 
